@@ -26,19 +26,32 @@ pub fn run_shimmed(cmd: &Cmd, build: Build, mode: &Mode, sweep: &str, index: u64
     (r, reqs, c)
 }
 
-/// Data-flow oracle: `ent` is the concatenation, in request order, of the complete answers of some of the requests
-/// (one request per mnemonic today; an implementation that draws the entropy in several requests is equally faithful,
-/// and requests of concurrent workers may interleave in the log).
+/// Data-flow oracle: every byte of `ent` is a byte the source returned, in order. Accepted shapes: a contiguous slice of
+/// one answer (an implementation may fetch a block and carve candidates out of it), or a slice that runs to the end of an
+/// answer followed by the beginnings of later answers (entropy gathered in several requests; requests of concurrent
+/// workers may interleave in the log). Constant, repeated-from-elsewhere or derived bytes do not match.
 pub fn carried_by(ent: &[u8], reqs: &[Req]) -> bool {
-    fn go(ent: &[u8], reqs: &[Req], from: usize, budget: &mut u32) -> bool {
+    // continue with prefixes of later answers
+    fn cont(ent: &[u8], reqs: &[Req], from: usize, budget: &mut u32) -> bool {
         if ent.is_empty() { return true; }
         for j in from..reqs.len() {
-            let b = &reqs[j].bytes;
-            if reqs[j].ok && !b.is_empty() && ent.len() >= b.len() && ent[..b.len()] == b[..] { if *budget == 0 { return false; } *budget -= 1; if go(&ent[b.len()..], reqs, j + 1, budget) { return true; } }
-            // a request larger than what is left may carry the tail (e.g. a 32-byte request of which 16 bytes are used)
-            if reqs[j].ok && b.len() > ent.len() && b[..ent.len()] == ent[..] { return true; }
+            let b = &reqs[j].bytes; if !reqs[j].ok || b.is_empty() || b[0] != ent[0] { continue; }
+            if *budget == 0 { return false; } *budget -= 1;
+            if b.len() >= ent.len() { if b[..ent.len()] == ent[..] { return true; } }
+            else if ent[..b.len()] == b[..] && cont(&ent[b.len()..], reqs, j + 1, budget) { return true; }
         }
         false
     }
-    go(ent, reqs, 0, &mut 200_000)
+    let mut budget = 400_000u32;
+    for (j, r) in reqs.iter().enumerate() {
+        if !r.ok { continue; } let b = &r.bytes;
+        for o in 0..b.len() {
+            if b[o] != ent[0] { continue; }
+            let n = (b.len() - o).min(ent.len());
+            if b[o..o + n] != ent[..n] { continue; }
+            if n == ent.len() { return true; }                 // a slice inside one answer
+            if cont(&ent[n..], reqs, j + 1, &mut budget) { return true; } // ran to the end of this answer, goes on in later ones
+        }
+    }
+    ent.is_empty()
 }
